@@ -67,14 +67,31 @@ def _no_tracing():
 
 
 def conc(x):
-    """Realize a (path-decided, bounded) symbolic value; identity when run natively."""
+    """Concrete copy of a (path-decided, small) symbolic value; identity when run natively.
+
+    A decided value is found by comparing against small candidates: each comparison has
+    only one feasible outcome, so no new path is forked (CrossHair's own realize() would
+    add a model-value node and re-execute the whole path for the alternative)."""
     try:
         from crosshair.core import deep_realize
-        from crosshair.tracers import is_tracing
+        from crosshair.tracers import is_tracing, NoTracing
     except ImportError:
         return x
     if not is_tracing():
         return x
+    with NoTracing():
+        t = type(x)
+        plain = t in _PLAIN
+    if plain:
+        return x
+    if isinstance(x, (tuple, list)):
+        return tuple(conc(y) for y in x)
+    if isinstance(x, bool):
+        return True if x else False
+    if isinstance(x, int):
+        for v in range(-3, 64):
+            if x == v:
+                return v
     return deep_realize(x)
 
 
